@@ -70,6 +70,21 @@ var c12Frags = []string{"abc12", "(ab)", "((x)y)", "bac", "ab ab c", "hello 42",
 
 const c12Catastrophic = "aaaaaaaaaaaaaaaaaaaaaaaaaaaaaaaaaaaaaa!x"
 
+// a text on which the timed patterns ((a+)+!$ and ^(?:(a+)+|b)*c) may need exponential time: any long run of 'a'
+func c12IsCatastrophic(text string) bool {
+	return text == c12Catastrophic || strings.Contains(text, "aaaaaaaaaaaaaaaa")
+}
+
+// a text from the list that is not catastrophic (the empty text if there is none)
+func c12Calm(r *Rng, texts []string) string {
+	for try := 0; try < 50; try++ {
+		if t := texts[r.Intn(len(texts))]; !c12IsCatastrophic(t) {
+			return t
+		}
+	}
+	return ""
+}
+
 func c12Text(r *Rng) string {
 	var n int
 	switch k := r.Intn(100); {
@@ -444,7 +459,7 @@ func legC12Hist(c *Ctx) {
 				st.op = 8
 				st.re = Pick(rng, []int{5, 5, 1})
 			}
-			if specs[st.re].timeout != 0 && st.text == c12Catastrophic && st.op >= 8 {
+			if specs[st.re].timeout != 0 && c12IsCatastrophic(st.text) && st.op >= 8 {
 				st.op = 1 + rng.Intn(7) // keep the timed-out calls single-scan (cost)
 			}
 			if st.op == 10 && specs[st.re].rtl {
@@ -603,7 +618,7 @@ func legC12Hist(c *Ctx) {
 			current.Store(fmt.Sprintf("history #%d step %d (fresh Regexp) %s", h, i, c12StepDesc(st, specs, repls)))
 			beat.Add(1)
 			fo := c12Exec(fresh, st, repls, s.ngroups)
-			if fo.canon != outs[i].canon && s.spec.timeout != 0 && st.text != c12Catastrophic &&
+			if fo.canon != outs[i].canon && s.spec.timeout != 0 && !c12IsCatastrophic(st.text) &&
 				(strings.HasPrefix(fo.canon, "ERR match timeout") != strings.HasPrefix(outs[i].canon, "ERR match timeout")) {
 				// a wall-clock deadline fired on one side for an input that is not catastrophic (loaded machine):
 				// compare the side that did not time out with the deadline-free result instead
@@ -922,7 +937,7 @@ func c12ModelStep(st *c12Step, s *c12Shared, tok func(string) int64, mask int64,
 		}
 		probe := s.spec.compile()
 		kind, idx, ln, tp := c12SafeScan(probe, code == 1, runes, int(start), int(prevlen))
-		for try := 0; kind == 3 && text != c12Catastrophic && try < 3; try++ { // wall-clock deadline on a loaded machine
+		for try := 0; kind == 3 && !c12IsCatastrophic(text) && try < 3; try++ { // wall-clock deadline on a loaded machine
 			kind, idx, ln, tp = c12SafeScan(s.spec.compile(), code == 1, runes, int(start), int(prevlen))
 		}
 		addRow([]int64{0, re, code, token, start, pos, int64(kind), int64(idx), int64(ln), int64(tp)})
